@@ -245,3 +245,5 @@ RULES = [
     ("C15.GLOBALSTATE", 200, rule_globalstate),
     ("C15.NONDET", 190, rule_nondet),
 ]
+from . import common as _common_purity
+RULES = RULES + _common_purity.bundle_rules("C15")
